@@ -621,6 +621,37 @@ example : ∃ b' m', packMessage C36.deepMessage = .ok b' ∧ unpackMessage b' =
   rcases repack_holds deepBytes C36.deepMessage b' deepBytes_wf deepBytes_accepted hp with ⟨m', h1, h2⟩
   exact ⟨b', m', hp, h1, h2⟩
 
+/-- **An accepted TXT body fills its record exactly**: the strings that `unpackTXTResource` returns
+take `Length` bytes when packed again (a string may not run past RDLENGTH, not even by the length
+octet). -/
+theorem txtLoop_exact (msg : Bytes) (length : Nat) : ∀ (fuel off n : Nat) (ss : List Bytes),
+    txtLoop msg length fuel off n = .ok ss → n ≤ length →
+    n + (ss.map (fun s => s.length + 1)).sum = length := by
+  intro fuel
+  induction fuel with
+  | zero => intro off n ss h; simp [txtLoop] at h
+  | succ fuel ih =>
+    intro off n ss h hle
+    unfold txtLoop at h
+    split at h
+    · split at h
+      · simp at h
+      · rename_i t off' ht
+        split at h
+        · simp at h
+        · rename_i hchk
+          split at h
+          · rename_i ts hrec
+            simp at h
+            subst h
+            have := ih _ _ _ hrec (by omega)
+            simp only [List.map_cons, List.sum_cons]
+            omega
+          · simp at h
+    · simp at h
+      subst h
+      simp; omega
+
 /-- OPT options stay inside their record (the `repack-ResTooLong` repair): an accepted OPT body
 re-packs to at most the record's declared Length. -/
 theorem optLoop_within (msg : Bytes) (e : Nat) : ∀ (fuel off : Nat) (os : List (Nat × Bytes)),
